@@ -20,6 +20,7 @@ func init() {
 			"(R4) reset rule shape: the away-counter is zeroed whenever the offset equals the home offset, incremented by one otherwise, and the offset returns home (counter zeroed) when the counter exceeds the configured interval; the disabled path only zeroes the counter. " +
 			"Does not decide: the modulo-quantum identity, the half-quantum step bound and the reset timing as numeric facts over all input sequences.",
 		RuleDocs: []string{
+			"C12.R10 every method of the unwrapper that assigns one of its fields has a pointer receiver (with a value receiver the assignment lands on a copy and the carried state - last value, offset, reset count - is lost at return, so the output depends on how the stream is cut into calls)",
 			"C12.R6 (siblings) in a function that builds one channel's unwrapper, a constructor call with a constant inversion flag next to one that computes it is reported; the lookup is followed through predicate helpers of the options and through the parameters of a per-channel helper called from the loop",
 			"C12.R9 when the channels of a group are shared among worker goroutines by index ranges (first = worker x share), the share is the channel count divided by the worker count rounded up (polynomial form of the quotient); rounded down is reported, other forms are undecided",
 			"C12.R6 backward data slice of the inversion flag handed to each channel's unwrapper reads the group's first channel number (flags that leave the function through memory or a module call are undecided)",
@@ -59,9 +60,11 @@ func runC12(p *Prog, r *Report) {
 	r.MinInstances["C12.R3"] = 5
 	r.MinInstances["C12.R4"] = 4
 	r.MinInstances["C12.R6"] = 1
+	r.MinInstances["C12.R10"] = 1
 	c12R5(p, r)
 	c12R6(p, r)
 	c12R9(p, r)
+	c12R10(p, r)
 	fn := p.Func("", puT, "UnwrapInPlace")
 	ctor := p.Func("", "", "NewPhaseUnwrapper")
 	if fn == nil || ctor == nil {
@@ -1355,5 +1358,46 @@ func c12R9(p *Prog, r *Report) {
 	}
 	if n == 0 {
 		r.OK("C12.R9", "every channel of a group is unwrapped", "-", "no sharing of channels among workers by index ranges: one unwrapping step per element of the group's table")
+	}
+}
+
+
+// C12.R10: state carried across calls lives in the unwrapper's fields; a method with a value
+// receiver that assigns a field assigns a copy.
+func c12R10(p *Prog, r *Report) {
+	n := 0
+	for _, fn := range p.LibFuncs() {
+		recv := fn.Signature.Recv()
+		if recv == nil || typeName(recv.Type()) != puT || fn.Synthetic != "" {
+			continue
+		}
+		_, isPtr := recv.Type().(*types.Pointer)
+		var st0 *ssa.Store
+		nst := 0
+		Instrs(fn, func(in ssa.Instruction) {
+			st, ok := in.(*ssa.Store)
+			if !ok || puField(st.Addr) == "" {
+				return
+			}
+			nst++
+			if fa, isFa := st.Addr.(*ssa.FieldAddr); isFa {
+				if _, local := fa.X.(*ssa.Alloc); local && !isPtr && st0 == nil {
+					st0 = st
+				}
+			}
+		})
+		if nst == 0 {
+			continue
+		}
+		n++
+		r.Fn(FuncName(fn))
+		if st0 != nil {
+			r.Bad("C12.R10", FuncName(fn)+": the unwrapper's state is assigned through a pointer receiver", p.InstrPos(st0), "this method has a value receiver and assigns "+puField(st0.Addr)+": the assignment lands on the copy made for the call, so the state carried from one call to the next (last value, offset, reset count) is lost when the method returns and the output depends on how the stream is cut into calls")
+		} else {
+			r.OK("C12.R10", FuncName(fn)+": the unwrapper's state is assigned through a pointer receiver", p.Pos(fn.Pos()), "pointer receiver")
+		}
+	}
+	if n == 0 {
+		r.Unk("C12.R10", "methods of the unwrapper that assign its fields", "-", "none found")
 	}
 }
